@@ -30,6 +30,10 @@ LeafV(n) ==
     [] n = "dollar" -> Lit(<<A, 36>>)
     [] n = "from"   -> Cls(FALSE, << <<A, A>>, <<99, 99>> >>)
     [] n = "between" -> Cls(FALSE, << <<A, 99>> >>)
+    [] n = "aei"    -> Cls(FALSE, << <<A, A>>, <<101, 101>>, <<105, 105>> >>)      \* AnyFrom('a', 'e', 'i')
+    [] n = "ce"     -> Cls(FALSE, << <<99, 99>>, <<101, 101>> >>)                   \* AnyFrom('c', 'e')
+    [] n = "grp_ci" -> Grp(Lit(<<A, B>>), TRUE)                                     \* Group('ab', is_case_insensitive=True)
+    [] n = "bos"    -> Anch("bos", Lit(<<A>>))                                      \* MatchAtStart('a')
     [] n = "alt"    -> Alt(Lit(<<A>>), Lit(<<B, A>>))
     [] n = "anchor" -> Anch("bol", Lit(<<A>>))
     [] n = "altdup" -> Alt(Alt(Alt(Lit(<<A, B>>), Lit(<<A>>)), Lit(<<A, B, 99>>)), Lit(<<A, B>>))   \* Either('ab','a','abc','ab')
@@ -60,8 +64,9 @@ Call(op, x, y, n) ==
     [] op = "or"           -> [o |-> IF x.k = "cls" /\ y.k = "cls" /\ x.neg = y.neg
                                      THEN OkO(Cls(x.neg, Union(x.iv, y.iv))) ELSE RaiseO("CannotBeUnionedException"),
                                self |-> FALSE]
-    [] op = "sub"          -> [o |-> IF x.k = "cls" /\ y.k = "cls" /\ x.neg = y.neg /\ Diff(x.iv, y.iv) # <<>>
-                                     THEN OkO(Cls(x.neg, Diff(x.iv, y.iv))) ELSE RaiseO("EmptyClassException"),
+    [] op = "sub"          -> [o |-> IF ~(x.k = "cls" /\ y.k = "cls" /\ x.neg = y.neg) THEN RaiseO("CannotBeSubtractedException")
+                                     ELSE IF Diff(x.iv, y.iv) # <<>> THEN OkO(Cls(x.neg, Diff(x.iv, y.iv)))
+                                     ELSE RaiseO("EmptyClassException"),
                                self |-> FALSE]
     [] op = "invert"       -> [o |-> IF x.k = "cls" THEN OkO(Cls(~x.neg, x.iv)) ELSE RaiseO("n/a"), self |-> FALSE]
 
